@@ -61,6 +61,30 @@ Proof.
   exists inner. repeat split; auto.
 Qed.
 
+(* get_entity_ids (what every step wraps its inputs in before _persist_token): exactly the ids of the entities that have
+   one — an unpersisted entity (None) is dropped silently, which is how an input that was never persisted goes
+   missing from the provenance without any error; the truthiness test would also drop an id 0 *)
+Theorem C07_get_entity_ids : forall l i, In i (get_entity_ids l) <-> (In (Some i) l /\ i <> 0%N).
+Proof. exact get_entity_ids_spec. Qed.
+
+(* Transformer / ConditionalStep rounds, strengthened: the tokens of a recorded group were CONSUMED — each is a head of
+   one of the rounds, at the port index it is stored under.  Q is any predicate true of every (port, head) pair. *)
+Theorem C07_step_inputs_transformer_consumed : forall k nin nout rounds g ids,
+  In (g, ids) (rounds_prov k nin nout [] rounds) ->
+  exists inner : list (nat * Net.Model.tok),
+    ids = group_ids inner /\ length inner = nin /\ NoDup (map fst inner) /\
+    (forall p, In p inner -> Net.Model.tok_tag (snd p) = g) /\
+    forall p, In p inner -> exists heads, In heads rounds /\ nth_error heads (fst p) = Some (snd p).
+Proof.
+  intros k nin nout rounds g ids H.
+  destruct (rounds_inputs_consumed k nin nout rounds [] g ids
+              (fun p => exists heads, In heads rounds /\ nth_error heads (fst p) = Some (snd p)) imap_ok_nil)
+    as [inner [E [[T N] [L C]]]]; auto.
+  - intros g0 inner0 [].
+  - intros heads j t Hin Hj. exists heads. auto.
+  - exists inner. repeat split; auto.
+Qed.
+
 (* GatherStep._gather (C01's model): for every legal arrival order of the scattered instances, every emitted token is
    the list of one instance and its recorded inputs are the size token of that key followed by every element
    token of that key, each once *)
@@ -134,6 +158,8 @@ Print Assumptions C07_checker_sound.
 Print Assumptions C07_discipline_keeps_order_partial.
 Print Assumptions C07_step_inputs_scatter.
 Print Assumptions C07_step_inputs_transformer_rounds.
+Print Assumptions C07_step_inputs_transformer_consumed.
+Print Assumptions C07_get_entity_ids.
 Print Assumptions C07_step_inputs_gather.
 Print Assumptions C07_step_inputs_dot.
 Print Assumptions C07_step_inputs_cartesian.
